@@ -200,7 +200,7 @@ CHECKS = {
         design="6/C09",
         note="Trusted: Coq kernel + vm_compute; hand-written model Pipe/Chain.v on top of the C01/C02/C05/C06 models; certificates from the untrusted "
              "harness, only checked. All theorems closed under the global context (no axioms). The composition theorem is instantiated for syndrome "
-             "decoding; the other decoders (brute-force ML, Berlekamp-Massey, Reed majority, Wagner, BP, min-sum, SC, polar BP) enter through their "
+             "decoding and for brute-force ML decoding; the other decoders (Berlekamp-Massey, Reed majority, Wagner, BP, min-sum, SC, polar BP) enter through their "
              "own properties (C02, C10, C11) and are exercised here on the implementation only. Decoders that reject several blocks per row are "
              "paired only with modems whose bits per symbol divide n.",
         technique="Coq proof (assume/guarantee composition of proved component theorems; ordered-field geometry on rationals) + kernel-evaluated hypotheses on published matrices/tables + model/implementation correspondence on ChannelCodeModel runs"),
@@ -242,9 +242,11 @@ CHECKS = {
              "on exact dyadic inputs against the Wagner decoder (1-D, batched, multi-block) and against MinSumLDPCDecoder posteriors "
              "(scaling/offset/iterations), exact comparison.",
         design="6/C10",
-        note="Trusted: Coq kernel + vm_compute; partial: sign consistency of the tanh rule, exactness of sum-product on cycle-free graphs and end-to-end "
-             "min-sum scale invariance are not formalised (checked on the implementation against a float64 brute-force reference / by rescaled runs); "
-             "soft Reed-Muller is checked on the implementation only. Closed under the global context.",
+        note="Trusted: Coq kernel + vm_compute; the exact sum-product update 2 atanh(prod tanh(l/2)) is proved sign consistent over the reals "
+             "(Decoders/BPTanhR.v; Coq Reals axioms ClassicalDedekindReals.sig_not_dec, sig_forall_dec, FunctionalExtensionality.functional_extensionality_dep "
+             "for that theorem only; that float32 arithmetic preserves the sign is A-float); partial: exactness of sum-product on cycle-free graphs and "
+             "end-to-end min-sum scale invariance are not formalised (checked on the implementation against a float64 brute-force reference / by rescaled "
+             "runs); soft Reed-Muller is checked on the implementation only. All other theorems closed under the global context.",
         technique="Coq proof (loss decomposition for Wagner; message-sign invariant by induction over iterations for BP) + exact model/implementation correspondence by vm_compute"),
     "C05": dict(
         text="Coq theorems: for EVERY labelled constellation whose points and labels are pairwise distinct (checker table_ok, evaluated by "
